@@ -35,19 +35,17 @@ commits in ``util/_collections_cy.py`` (Cython is unavailable, the extension
 cannot be rebuilt), so exactly two groups diverge:
 ``OrderedSet.symmetric_difference_update[seq]`` and ``IdentitySet.ixor[set]``.
 
-Mutations caught: (filled in below, see end of docstring)
-
-Mutations caught:
+Mutations caught (scratch copy *with* the shipped .so files, each seen as a VIOLATION with its own signature):
   M1 util/_collections_cy.py OrderedSet.insert: drop the ``if element not in self`` guard
-  M2 util/_immutabledict_cy.py _union_other: ``only_one is False and`` fast path returns the
-     first non-empty immutabledict even when self is non-empty
-  M3 engine/_row_cy.py BaseRow.__hash__: hash(self._data) -> hash(tuple(reversed(self._data)))
-  M4 engine/_result_cy.py _apply_unique_strategy: add the hashed row *before* the membership
-     test is evaluated for the next duplicate (drops ``continue``)
-  M5 engine/_processors_cy.py to_decimal_processor_factory: format ``%.{scale}f`` -> ``%.{scale+1}f``
+  M2 util/_immutabledict_cy.py _union_other: fast path ``only_one is False and`` -> ``only_one is not None and``
+     (returns the argument instead of a merged dict when self is non-empty)
+  M3 engine/_row_cy.py BaseRow.__hash__: hash(self._data) -> hash(self._data[::-1])
+  M4 engine/_result_cy.py _apply_unique_strategy: ``if hashed in uniques`` -> ``if hashed in uniques and destination``
+     (first duplicate of a batch slips through; needs a 2-step history fetchone ; fetchmany/all)
+  M5 engine/_processors_cy.py to_decimal_processor_factory: format ``%.{scale}f`` -> ``%.{scale + 1}f``
   M6 engine/_util_cy.py _is_contiguous: ``prev != curr - 1`` -> ``prev > curr - 1``
-  M7 sql/_util_cy.py prefix_anon_map.__missing__: counter starts at 0 instead of 1
-  M8 engine/_util_cy.py _distill_raw_params: tuple no longer accepted as a single parameter set
+  M7 sql/_util_cy.py prefix_anon_map.__missing__: counter default 1 -> 0
+  M8 engine/_util_cy.py _is_mapping_or_tuple: tuple no longer accepted
 """
 import os
 import sys
@@ -132,7 +130,7 @@ def shards(tier, seed):
         if q:
             nparts = dict(iter=2, logfn=2, scalar=1, cursor=3).get(src, 1)
         else:
-            nparts = dict(cursor=19).get(src, 10 if src in RESULT_FULL else 6)
+            nparts = dict(cursor=10, scalar=6).get(src, 10 if src in RESULT_FULL else 3)
         for part in range(nparts):
             out.append(("result", src, part, nparts))
     return out
@@ -491,7 +489,7 @@ def run_oset(shard, tier, only):
             elif type(r).__name__ == "OrderedSet":
                 # aliasing probe: mutating the result must not disturb the receiver
                 r.add(99)
-            steps.append(txt + " | " + dump_oset(s))
+            steps.append("ret=" + txt + " recv=" + dump_oset(s))
         name, argspec, scalar = hist[-1]
         group = "OrderedSet.%s[%s]" % (name, _argclass(argspec))
         desc = "OrderedSet(%r)" % (list(init),) + "".join(".%s(%s)" % (n, _desc_args(a, sc)) for n, a, sc in hist)
@@ -600,7 +598,7 @@ def run_iset(shard, tier, only):
             elif type(r).__name__ == "IdentitySet":
                 txt = dump(r)
                 r.add(c54.Obj(9, "fresh"))  # aliasing probe
-            steps.append(txt + " | " + dump(s))
+            steps.append("ret=" + txt + " recv=" + dump(s))
         name, argspec, scalar = hist[-1]
         group = "IdentitySet.%s[%s]" % (name, _argclass([argspec] if argspec else None))
         desc = "IdentitySet(%s)" % ([tag(i) for i in init],) + "".join(
@@ -1187,9 +1185,10 @@ def _row_lists(tier):
             out.extend(itertools.product(range(3), repeat=k))
         out += [(3,), (0, 1, 0), (0, 2, 1), (3, 0, 0), (1, 1, 1)]
     else:
-        for k in range(4):
+        for k in range(3):
             out.extend(itertools.product(range(len(RES_ROWS)), repeat=k))
-        out += [(0, 1, 0, 2), (0, 0, 1, 1)]
+        out.extend(itertools.product(range(3), repeat=3))
+        out += [(3, 0, 0), (0, 1, 0, 2), (0, 0, 1, 1)]
     return out
 
 
@@ -1376,17 +1375,23 @@ def run_result(shard, tier, only):
         rowlists = _row_lists(tier)
         procs_all = ("none", "mixed") if src in ("scalar", "chunked") else (("none",) if src == "cursor" else ("none", "mixed", "allnone", "raising"))
         hists = [(o,) for o in RES_OPS]
+        triples = []
         if tier == "quick":
             if src in RESULT_FULL:
                 hists += [(a, b) for a in RES_CORE for b in RES_SECOND]
         else:
-            hists += [(a, b) for a in RES_OPS for b in RES_OPS]
             if src in RESULT_FULL:
-                hists += [(a, b, c) for a in RES_CORE for b in RES_CORE for c in RES_CORE]
-        for fi, filters in enumerate(RES_FILTERS):
+                hists += [(a, b) for a in RES_OPS for b in RES_OPS]
+            else:
+                hists += [(a, b) for a in RES_CORE for b in RES_SECOND]
+            if src in ("iter", "scalar"):
+                triples = [(a, b, c) for a in RES_CORE for b in RES_CORE for c in RES_CORE]
+        eligible = [
+            f for f in RES_FILTERS
+            if not (src == "scalar" and any(x[0] in ("columns", "mappings") or (x[0] == "scalars" and x[1] != 0) for x in f))
+        ]
+        for fi, filters in enumerate(eligible):
             if fi % nparts != part:
-                continue
-            if src == "scalar" and any(f[0] in ("columns", "mappings") or (f[0] == "scalars" and f[1] != 0) for f in filters):
                 continue
             for procs in procs_all:
                 for rows in rowlists:
@@ -1396,6 +1401,9 @@ def run_result(shard, tier, only):
                         if procs in ("allnone", "raising") and len(hist) > 1:
                             continue
                         yield ("res", tuple(rows), procs, filters, hist)
+                    if len(rows) == 2 or rows == (0, 1, 0):
+                        for hist in triples:
+                            yield ("res", tuple(rows), procs, filters, hist)
 
     def run():
         try:
